@@ -363,6 +363,8 @@ type c09Traits struct {
 	emptyPattern   bool   // `like` with a zero-component pattern
 	literalClass   string // a literal VALUE that does not survive value JSON (C13 known findings)
 	methodNoRecv   bool   // method-style extension call without a receiver: programmatic only, outside the JSON format
+	dupRecordKey   bool   // some record literal repeats a key: JSON keeps only the last entry (earlier ones never reach the decoder)
+	negOfLiteral   bool   // unary minus applied directly to a long literal: the text form `-n` is read back as the literal -n
 	exoticValueKey bool   // C08: record VALUE key that strconv.Quote renders with Go-only escapes
 	textFriendly   bool   // every entity type / annotation key is a Cedar identifier path, no zero UID
 	hasSetValue    bool
@@ -446,6 +448,12 @@ func c09TraitsOf(p *ast.Policy) c09Traits {
 				if len(v.Args) == 0 && c09KnownExt[string(v.Name)] && !c09Constructor[string(v.Name)] {
 					t.methodNoRecv = true
 				}
+			case ast.NodeTypeNegate:
+				if nv, ok := v.Arg.(ast.NodeValue); ok {
+					if _, isLong := nv.Value.(types.Long); isLong {
+						t.negOfLiteral = true
+					}
+				}
 			case ast.NodeTypeLike:
 				if len(types.VerifPatternComps(v.Value)) == 0 {
 					t.emptyPattern = true
@@ -463,6 +471,7 @@ func c09TraitsOf(p *ast.Policy) c09Traits {
 				for _, e := range v.Elements {
 					if seen[e.Key] {
 						t.textFriendly = false // the text parser rejects duplicate keys
+						t.dupRecordKey = true
 					}
 					seen[e.Key] = true
 				}
@@ -625,6 +634,11 @@ func runC09(c *vh.Ctx) {
 		out, pj := c09DecodeJSON(jb)
 		rtClass := ""
 		switch {
+		case tr.dupRecordKey && (tr.unknownExt || tr.methodNoRecv):
+			// the offending call may sit in a record entry that a later duplicate key shadows: JSON drops it
+			// before the decoder sees it, so neither acceptance nor rejection can be demanded
+			c.Dist("not-json-renderable:shadowed-by-duplicate-key(skipped)")
+			continue
 		case tr.unknownExt:
 			// outside the JSON format: the decoder must refuse the unknown function name
 			c.Dist("not-json-renderable:unknown-extension-name")
@@ -726,6 +740,10 @@ func runC09(c *vh.Ctx) {
 					c.Report(vh.Finding{Class: "text-rejects-replacement-char", What: fmt.Sprintf("JSON -> text -> parse fails (%v): the rendered text contains U+FFFD: %s", perr, txt), Check: "oracle", Op: "json-text-json", Input: string(jb)})
 				} else if tr.literalClass != "" {
 					c.Dist("text-paths:c13-overlap")
+				} else if perr == nil && tr.negOfLiteral {
+					// `-`(long literal) is written `-n` and read back as the LITERAL -n: same meaning, different tree
+					// (same root cause as C08 negated-literal-rerendered-differently)
+					c.Report(vh.Finding{Class: "text-normalises-negated-literal", What: fmt.Sprintf("JSON -> text -> parse turns Negate(long literal) into a negative literal: %s", txt), Check: "oracle", Op: "json-text-json", Input: string(jb)})
 				} else {
 					got := "parse error"
 					if perr == nil {
